@@ -20,6 +20,8 @@ import AdaptaVerif.Lemmas.HyperTreeMove
 import AdaptaVerif.Lemmas.HyperTreeJBridge
 import AdaptaVerif.Lemmas.HyperTreeCompose
 import AdaptaVerif.Lemmas.HyperTreeTerminalsB
+import AdaptaVerif.Lemmas.HyperTreeMoveTerminals
+import AdaptaVerif.Lemmas.HyperTreeAttrs
 import AdaptaVerif.Lemmas.HyperTreeWitness
 import AdaptaVerif.Props.C12
 namespace AdaptaVerif.Props.C12Ops
@@ -275,6 +277,18 @@ theorem removeZeroLengthEdges_same_terminals {f : Nat} {s : Imp} {self : Nat} {i
     Tree s'.t ∧ NoLeafZero s'.t ∧ LeavesAre s'.t.graphV s'.t.graphE T :=
   rzleNode_terminals ht hz T hT h
 
+/-- The REPAIRED `removeZeroLengthEdges` (fix 6964517; `keepAttrs = true`) keeps the terminal attributes,
+    for all trees, every fuel, start node and ignored edge: every terminal (leaf) of the result carries
+    the `isConnectorSource` / `isPinDummyEndpoint` / `finalVertex` — and the position — of a terminal of
+    the tree before the rewrite.  (False for the code as found: `rzle_drops_isConnectorSource_witness`.) -/
+theorem removeZeroLengthEdges_keeps_terminal_attrs {f : Nat} {s : Imp} {self : Nat} {ign : Option Nat}
+    {s' : Imp} (ht : Tree s.t) (hk : s.keepAttrs = true) (h : rzleNode f s self ign = some s') :
+    ∀ n' ∈ s'.t.nodes, n'.edges.length = 1 →
+      ∃ n ∈ s.t.nodes, n.edges.length = 1 ∧
+        AdaptaVerif.Lemmas.HyperTreeAttrs.TermAttrs n = AdaptaVerif.Lemmas.HyperTreeAttrs.TermAttrs n' ∧
+        n.point = n'.point :=
+  AdaptaVerif.Lemmas.HyperTreeAttrs.rzleNode_keeps_terminal_attrs ht hk h
+
 /-- the executable form of the side condition (evaluated by the driver on the real states) is sound -/
 theorem noLeafZerob_sound {t : HTree} (hw : WF t) (h : noLeafZerob t = true) : NoLeafZero t :=
   AdaptaVerif.Lemmas.HyperTreeTerminals.noLeafZerob_sound hw h
@@ -314,6 +328,27 @@ theorem moveJunctionFully_preserves_tree {f : Nat} {s : Imp} {j : Nat} {s' : Imp
 -- non-vacuity: the junction of `exCommon` moves along the common first segment (one split, one merge)
 example : (moveJunctionStep (mkImp exCommon [(1, 0)] [1] false) 1).map
     (fun r => (r.s.t.nodes.length, r.newSelf, r.s.t.leaves)) = some (6, some 1, [3, 4, 5]) := by
+  decide +kernel
+
+/-- The junction move keeps the TERMINAL SET.  Side condition `MoveSafe` on the junction node (fixed-route
+    edges aside): no leaf neighbour shares its position with another neighbour or lies strictly inside
+    the segment to another neighbour (`pointOnLine`).  Then — all branches, in-scan splits included — the
+    leaves of the result are exactly the leaves before. -/
+theorem moveJunction_same_terminals {s : Imp} {j : Nat} {r : MoveResult} {T : List Nat} (ht : Tree s.t)
+    (hsafe : ∀ self, s.junctions.find? (fun p => p.1 == j) = some (j, self) →
+      AdaptaVerif.Lemmas.HyperTreeMoveTerminals.MoveSafe s.t self)
+    (hT : LeavesAre s.t.graphV s.t.graphE T) (h : moveJunctionStep s j = some r) :
+    LeavesAre r.s.t.graphV r.s.t.graphE T :=
+  AdaptaVerif.Lemmas.HyperTreeMoveTerminals.moveJunctionStep_terminals ht hsafe hT h
+
+-- non-vacuity: the side condition holds at the junction of `exCommon` (whose junction does move) and
+-- fails on the witness `exOverTerminal`
+instance (e : HEdge) (a b : Nat) : Decidable (Joins e a b) := by unfold Joins; infer_instance
+example : AdaptaVerif.Lemmas.HyperTreeMoveTerminals.MoveSafe exCommon 0 := by
+  unfold AdaptaVerif.Lemmas.HyperTreeMoveTerminals.MoveSafe
+  decide +kernel
+example : ¬ AdaptaVerif.Lemmas.HyperTreeMoveTerminals.MoveSafe exOverTerminal 0 := by
+  unfold AdaptaVerif.Lemmas.HyperTreeMoveTerminals.MoveSafe
   decide +kernel
 
 /-- Junction bookkeeping of the junction move (one call + the caller's map rewrite), all branches.  With
@@ -408,14 +443,19 @@ theorem rzle_drops_leaf_at_junction_witness :
     (rzleNode 100 (mkImp exStar [(1, 0)] [1] false) 0 none).map (fun s => s.t.leaves) = some [2, 3] := by
   decide +kernel
 
-/-- `removeZeroLengthEdges`, zero-length LAST segment of a connector whose source is the terminal: the
-    far node (the leaf, `other`) is the one deleted, so its `isConnectorSource` flag is lost — the
-    surviving leaf is not marked as a connector source any more (`writeEdgesToConns` then does not
-    reverse that connector's route). -/
+/-- `removeZeroLengthEdges` AS FOUND (`rzleNodeOld`, before fix 6964517), zero-length LAST segment of a
+    connector whose source is the terminal: the far node (the leaf, `other`) is the one deleted, so its
+    `isConnectorSource` flag is lost — the surviving leaf is not marked as a connector source any more
+    (`writeEdgesToConns` then does not reverse that connector's route: defect F1 of report bF). -/
 theorem rzle_drops_isConnectorSource_witness :
     (exZeroTail.nodes.filter (·.isConnectorSource)).map (·.id) = [2] ∧
-    (rzleNode 100 (mkImp exZeroTail [(1, 0)] [1] false) 0 none).map
+    (rzleNodeOld 100 (mkImp exZeroTail [(1, 0)] [1] false) 0 none).map
       (fun s => (s.t.leaves, (s.t.nodes.filter (·.isConnectorSource)).map (·.id))) = some ([1, 3, 4], []) := by
+  decide +kernel
+
+-- … and the repaired traversal (the model since 6964517) hands the flag to the surviving leaf 1
+example : (rzleNode 100 (mkImp exZeroTail [(1, 0)] [1] false) 0 none).map
+    (fun s => (s.t.leaves, (s.t.nodes.filter (·.isConnectorSource)).map (·.id))) = some ([1, 3, 4], [1]) := by
   decide +kernel
 
 /-- `moveJunctionAlongCommonEdge`, a second connector running over a terminal's end point: the terminal
